@@ -181,10 +181,10 @@ def run(ctx: Ctx) -> None:
     ctx.analysed["callgraph"] = g.stats()
     sinks = sinks_of(ctx)
     ctx.analysed["sinks"] = sorted(_short(s) for s in sinks)
-    rule_r1(ctx, g, sinks)
-    rule_r2(ctx, g, sinks)
-    rule_r3(ctx)
-    rule_r4(ctx)
-    rule_r5(ctx)
+    ctx.attempt(rule_r1, ctx, g, sinks)
+    ctx.attempt(rule_r2, ctx, g, sinks)
+    ctx.attempt(rule_r3, ctx)
+    ctx.attempt(rule_r4, ctx)
+    ctx.attempt(rule_r5, ctx)
     ctx.assume("kind inference is annotation-seeded; unresolved receivers fall back to by-name dispatch (over-approximation, sound for must-not-reach)")
     ctx.undecided("actual wall-clock and memory; the residue enumeration is exponential in the number of distinct residues but bounded by the divisor, which is what the property states")
